@@ -205,7 +205,7 @@ def _unpack_stack(scope, only_errors=True):
     while LAST_CHILD_SCOPE in scope:
         child = scope[LAST_CHILD_SCOPE]
         branches = scope[CHILD_ERRORS]
-        if branches == [child]:
+        if len(branches) == 1 and branches[0] is child:
             branches = []  # if there's only one branch, count it as linear
         stack.append([scope, scope[Spec], scope[T], scope.get(CUR_ERROR), branches])
 
